@@ -41,6 +41,8 @@ type StructV struct {
 	Fields map[int]Value
 	Zero   bool
 	Fresh  string // fresh symbolic struct: fields are fresh constants named after this id
+	Box    *Term  // struct payload of an interface value: fields are functions of the box term
+	BoxKey string // "<typekey>.<path>" prefix of the payload functions
 	C      *Term
 	A, B   *StructV
 }
